@@ -40,6 +40,26 @@ def _crash_text(res):
     return None
 
 
+def _chunks(xs, k):
+    k = max(1, min(k, (len(xs) + 199) // 200))
+    n = (len(xs) + k - 1) // k
+    return [xs[i:i + n] for i in range(0, len(xs), n)]
+
+
+def _par(ctx, sub, texts, timeout):
+    """Run the harness once per stdin text, a few processes side by side (every process has its
+    own allocation statistics / panic counters, so attribution stays per case)."""
+    ctx.build("spdy")
+    if len(texts) == 1:
+        return [ctx.harness("spdy", [sub], stdin_text=texts[0], timeout=timeout)]
+    from concurrent.futures import ThreadPoolExecutor
+    with ThreadPoolExecutor(max_workers=len(texts)) as ex:
+        return list(ex.map(lambda s: ctx.harness("spdy", [sub], stdin_text=s, timeout=timeout), texts))
+
+
+NPROC = max(1, min(4, vlib.NCPU // 3))
+
+
 # ----------------------------------------------------------------------------- C39
 ALL_BM = ["none", "cntmore", "cnt1025", "cnthuge", "namebig", "namemax", "valbig", "valmax",
           "truncname", "truncval", "trail", "notzlib"]
@@ -82,19 +102,26 @@ def run_frame_cases(ctx, cases, label=""):
     for i, c in enumerate(cases):
         c["id"] = i + 1
     head = json.dumps({"alphabet": _alphabet()}, separators=(",", ":")) + "\n"
-    text = head + "".join(json.dumps(c, separators=(",", ":")) + "\n" for c in cases)
-    res = ctx.harness("spdy", ["frames"], stdin_text=text, timeout=3000)
-    crash = _crash_text(res)
-    results = [r for r in res if "id" in r]
-    if any("_fatal" in r for r in res):
-        raise vlib.MachineryError("spdy frames: %s" % [r for r in res if "_fatal" in r][:1])
-    nrep = 0
-    if crash is not None:
+    parts = _chunks(cases, NPROC)
+    outs = _par(ctx, "frames", [head + "".join(json.dumps(c, separators=(",", ":")) + "\n" for c in p)
+                                for p in parts], 3000)
+    results, nrep, skipped = [], 0, 0
+    for part, res in zip(parts, outs):
+        if any("_fatal" in r for r in res):
+            raise vlib.MachineryError("spdy frames: %s" % [r for r in res if "_fatal" in r][:1])
+        got = [r for r in res if "id" in r]
+        results += got
+        crash = _crash_text(res)
+        summ = [r for r in res if r.get("summary")]
+        if crash is None:
+            if not summ or summ[0]["cases"] != len(part):
+                raise vlib.MachineryError("spdy frames: %d results for %d cases" % (len(got), len(part)))
+            skipped += summ[0].get("alloc_skipped", 0)
+            continue
         # the process died (fatal error / out of memory are not recoverable): find the case
-        done = {r["id"] for r in results}
-        cand = [c for c in cases if c["id"] not in done][:80]
+        done = {r["id"] for r in got}
         found = False
-        for c in cand:
+        for c in [c for c in part if c["id"] not in done][:80]:
             one = ctx.harness("spdy", ["frames"], stdin_text=head + json.dumps(c) + "\n", timeout=300)
             cr = _crash_text(one)
             if cr is not None:
@@ -108,9 +135,7 @@ def run_frame_cases(ctx, cases, label=""):
         if not found:
             raise vlib.MachineryError("spdy frames harness died and no single case reproduces it: %s"
                                       % crash["_stderr"][-1500:])
-    summ = [r for r in res if r.get("summary")]
-    if crash is None and (not summ or summ[0]["cases"] != len(cases)):
-        raise vlib.MachineryError("spdy frames: %d results for %d cases" % (len(results), len(cases)))
+    summ = [{"alloc_skipped": skipped}]
     by_id = {c["id"]: c for c in cases}
     drift = {}
     for r in results:
@@ -207,12 +232,35 @@ def _script(c):
 
 
 def _conn_harness(ctx, cases, slow=1):
+    """-> (results, crashed): crashed = scripts whose replay killed the harness process."""
     for c in cases:
         c["slow"] = slow
-    res = ctx.harness("spdy", ["conn"], cases=cases, timeout=3000)
-    if any("_fatal" in r for r in res):
-        raise vlib.MachineryError("spdy conn: %s" % [r for r in res if "_fatal" in r][:1])
-    return res
+    parts = _chunks(cases, NPROC)
+    outs = _par(ctx, "conn", ["".join(json.dumps(c, separators=(",", ":")) + "\n" for c in p) for p in parts], 3000)
+    results, crashed = [], []
+    for part, res in zip(parts, outs):
+        if any("_fatal" in r for r in res):
+            raise vlib.MachineryError("spdy conn: %s" % [r for r in res if "_fatal" in r][:1])
+        while True:
+            got = [r for r in res if "id" in r]
+            results += got
+            crash = _crash_text(res)
+            if crash is None:
+                if len(got) != len(part):
+                    raise vlib.MachineryError("spdy conn: %d results for %d scripts" % (len(got), len(part)))
+                break
+            # results are flushed per script, scripts run in order: the first one without a result
+            # is the one that killed the process (a panic on the server's reader / writer goroutine)
+            done = {r["id"] for r in got}
+            rest = [c for c in part if c["id"] not in done]
+            if not rest:
+                break
+            crashed.append((rest[0], crash["_stderr"][-1800:]))
+            part = rest[1:]
+            if not part:
+                break
+            res = ctx.harness("spdy", ["conn"], cases=part, timeout=3000)
+    return results, crashed
 
 
 def run_conn_cases(ctx, cases, label="", maxs=2):
@@ -222,30 +270,16 @@ def run_conn_cases(ctx, cases, label="", maxs=2):
         c["id"] = i + 1
         c["maxs"] = c.get("maxs", maxs)
     by_id = {c["id"]: c for c in cases}
-    res = _conn_harness(ctx, cases)
-    results = [r for r in res if "id" in r]
-    crash = _crash_text(res)
+    results, crashed = _conn_harness(ctx, cases)
     nrep = 0
-    if crash is not None:
-        # a panic on the server's reader / writer goroutine is not recoverable: the process dies.
-        ids = [int(x.split()[1]) for x in (ctx.last_stderr or "").splitlines() if x.startswith("CASE ")]
-        cul = by_id.get(ids[-1]) if ids else None
-        again = _crash_text(_conn_harness(ctx, [cul])) if cul else None
-        if again is None:
-            raise vlib.MachineryError("spdy conn harness died, not reproducible on the last case: %s"
-                                      % crash["_stderr"][-1500:])
+    for cul, err in crashed[:10]:
+        _, again = _conn_harness(ctx, [cul], slow=3)
+        if not again:
+            raise vlib.MachineryError("spdy conn harness died, not reproducible on script %d: %s" % (cul["id"], err))
         nrep += 1
         ctx.report("crash/" + cul["steps"][-1]["why"], "the process died (unrecovered panic / fatal error) replaying "
-                   "this script: " + again["_stderr"][-1500:], case={"steps": cul["steps"], "maxs": cul["maxs"]},
+                   "this script: " + again[0][1], case={"steps": cul["steps"], "maxs": cul["maxs"]},
                    harness="spdy", cmd="conn")
-        done = {r["id"] for r in results}
-        rest = [c for c in cases if c["id"] not in done and c["id"] != cul["id"]]
-        if rest:
-            more = _conn_harness(ctx, rest)
-            if _crash_text(more) is None:
-                results += [r for r in more if "id" in r]
-    elif len(results) != len(cases):
-        raise vlib.MachineryError("spdy conn: %d results for %d scripts" % (len(results), len(cases)))
     # a contradiction must reproduce when the script is replayed on its own with tripled timeouts
     failing = [by_id[r["id"]] for r in results if not r["ok"]]
     confirmed = {}
@@ -253,10 +287,10 @@ def run_conn_cases(ctx, cases, label="", maxs=2):
         if any(r.get("sig") == "machinery" for r in results if not r["ok"]):
             bad = [r for r in results if r.get("sig") == "machinery"][0]
             raise vlib.MachineryError("spdy conn: %s" % bad.get("detail"))
-        again = _conn_harness(ctx, failing[:60], slow=3)
-        if _crash_text(again) is not None:
+        again, died = _conn_harness(ctx, failing[:60], slow=3)
+        if died:
             raise vlib.MachineryError("spdy conn harness died during confirmation runs")
-        confirmed = {r["id"]: r for r in again if "id" in r and not r["ok"]}
+        confirmed = {r["id"]: r for r in again if not r["ok"]}
     drift = {}
     steps_checked = 0
     for r in results:
@@ -304,12 +338,12 @@ def check_c40(ctx):
     ctx.cov["constants"]["Gen_Conn_exhaustive"] = g1
     ex = gen_conn(ctx, g1)
     # one stream, every script: reaches negative send windows, blocked writers, SETTINGS changes
-    g1n = conn_consts([1], [U], [U, MAXD], [0, 4 * U], [5 * U], 4 if q else 5, noise=0)
+    g1n = conn_consts([1], [U], [U // 2, MAXD], [0, 4 * U], [5 * U], 4 if q else 5, noise=0)
     ctx.cov["constants"]["Gen_Conn_exhaustive_one_stream"] = g1n
     ex += gen_conn(ctx, g1n)
     cases += ex
     broad = conn_consts([1, 2, 3, 5], [0, U, 2 * U, 5 * U], [0, U, MAXD], [0, U, 4 * U, MAXD], [U, 5 * U], 14, noise=2)
-    flow = conn_consts([1, 3], [U, 3 * U], [U, MAXD], [0, 4 * U], [5 * U], 16, noise=0)
+    flow = conn_consts([1, 3], [U, 3 * U], [U // 2, U, MAXD], [0, 4 * U], [5 * U], 16, noise=0)
     ctx.cov["constants"]["Gen_Conn_sim_broad"] = broad
     ctx.cov["constants"]["Gen_Conn_sim_flow"] = flow
     nsim = 250 if q else 6000
